@@ -13,6 +13,7 @@ import (
 	"go/ast"
 	"go/token"
 	"go/types"
+	"sort"
 	"strings"
 )
 
@@ -83,6 +84,149 @@ func checkUsageClassifiers(r *Run) {
 				return true
 			})
 			return c
+		}
+		// declGuard: does the condition, when it holds, establish that the variable is the declaration field of its parent?
+		// A conjunction needs one such conjunct, a disjunction needs it in every disjunct.
+		var declGuard func(e ast.Expr) (reads []string, decls []string, ok bool)
+		declGuard = func(e ast.Expr) ([]string, []string, bool) {
+			e = ast.Unparen(e)
+			if be, isBin := e.(*ast.BinaryExpr); isBin && (be.Op == token.LAND || be.Op == token.LOR) {
+				lr, ld, lok := declGuard(be.X)
+				rr, rd, rok := declGuard(be.Y)
+				reads, ds := append(lr, rr...), append(ld, rd...)
+				if be.Op == token.LAND {
+					return reads, ds, lok || rok
+				}
+				return reads, ds, lok && rok
+			}
+			cmp := map[*types.Var]token.Pos{}
+			comparedFields(e, 0, cmp)
+			var reads, ds []string
+			for v := range cmp {
+				if _, isIface := v.Type().Underlying().(*types.Interface); isIface {
+					reads = append(reads, v.Name())
+				} else {
+					ds = append(ds, v.Name())
+				}
+			}
+			sort.Strings(reads)
+			sort.Strings(ds)
+			return reads, ds, len(ds) > 0 && len(reads) == 0
+		}
+		// The other spelling: a classifying function returns one constant of an enumeration per kind of occurrence and the
+		// handler switches over the result. The constants no counting case lists are the exempted kinds; every return of
+		// such a constant has to be controlled by a declaration-position test.
+		for fn, fd := range decls {
+			if fd.Body == nil {
+				continue
+			}
+			ast.Inspect(fd.Body, func(n ast.Node) bool {
+				sw, ok := n.(*ast.SwitchStmt)
+				if !ok || sw.Tag == nil {
+					return true
+				}
+				call, ok := ast.Unparen(sw.Tag).(*ast.CallExpr)
+				if !ok {
+					return true
+				}
+				callee := calleeOf(info, call)
+				if callee == nil || decls[callee] == nil || decls[callee].Body == nil {
+					return true
+				}
+				overVariable := false
+				for _, a := range call.Args {
+					if t := info.TypeOf(a); t != nil && namedName(t) == "Variable" && namedOf(t).Obj().Pkg() == cpkg.Types {
+						overVariable = true
+					}
+				}
+				enum := namedOf(info.TypeOf(sw.Tag))
+				if !overVariable || enum == nil || enum.Obj().Pkg() != p.Types {
+					return true
+				}
+				if b, isBasic := enum.Underlying().(*types.Basic); !isBasic || b.Info()&types.IsInteger == 0 {
+					return true
+				}
+				counted := map[types.Object]bool{}
+				counting, defaultCounts := 0, false
+				for _, c := range sw.Body.List {
+					cc := c.(*ast.CaseClause)
+					if !counts(&ast.BlockStmt{List: cc.Body}) {
+						continue
+					}
+					counting++
+					if cc.List == nil {
+						defaultCounts = true
+					}
+					for _, e := range cc.List {
+						if id := rootIdentOfSelector(e); id != nil {
+							counted[info.Uses[id]] = true
+						}
+					}
+				}
+				if counting < 2 {
+					return true
+				}
+				listed := map[types.Object]bool{}
+				for _, c := range sw.Body.List {
+					for _, e := range c.(*ast.CaseClause).List {
+						if id := rootIdentOfSelector(e); id != nil {
+							listed[info.Uses[id]] = true
+						}
+					}
+				}
+				found++
+				exempt := func(o types.Object) bool {
+					if counted[o] {
+						return false
+					}
+					if defaultCounts && !listed[o] {
+						return false
+					}
+					return true
+				}
+				gd := decls[callee]
+				ast.Inspect(gd.Body, func(m ast.Node) bool {
+					if _, isLit := m.(*ast.FuncLit); isLit {
+						return false
+					}
+					ret, ok := m.(*ast.ReturnStmt)
+					if !ok || len(ret.Results) != 1 {
+						return true
+					}
+					var c types.Object
+					if id := rootIdentOfSelector(ret.Results[0]); id != nil {
+						c, _ = info.Uses[id].(*types.Const)
+					}
+					construct := shortFuncName(fn) + ":" + shortFuncName(callee) + " returns " + exprString(r.Fset, ret.Results[0])
+					if c == nil {
+						r.Fail(rule, construct, ret.Pos(), "the classifying function returns a value that is not one of the enumeration's constants: which occurrences are exempted from the eligibility count cannot be decided")
+						return true
+					}
+					if !exempt(c) {
+						return true
+					}
+					var reads, ds []string
+					established := false
+					for _, lit := range controlConds(gd.Body, ret) {
+						if lit.Neg {
+							continue
+						}
+						rd, dd, ok := declGuard(lit.Expr)
+						reads, ds = append(reads, rd...), append(ds, dd...)
+						established = established || ok
+					}
+					switch {
+					case len(reads) > 0:
+						r.Fail(rule, construct, ret.Pos(), "an occurrence in a read position (the variable is compared with the parent's expression field %s) is classified as %s, which no counting case of the handler lists: such an occurrence is a use of the binding, and exempting it lets the lowering change what the query returns", strings.Join(reads, ", "), c.Name())
+					case established:
+						r.Pass(rule, construct, ret.Pos(), "the only uncounted occurrences are declarations (compared with %s)", strings.Join(ds, ", "))
+					default:
+						r.Fail(rule, construct, ret.Pos(), "an occurrence is classified as %s, which no counting case of the handler lists, and the return is not controlled by a declaration-position test (the variable being the parent's declaration field): the occurrences it matches are exempted from the eligibility count", c.Name())
+					}
+					return true
+				})
+				return false
+			})
 		}
 		for fn, fd := range decls {
 			if fd.Body == nil {
@@ -175,6 +319,17 @@ func checkUsageClassifiers(r *Run) {
 			})
 		}
 	}
-	r.Ob("C02-R3-classifiers-found", "optimize+translate", token.NoPos, found >= 1, "%d usage classifiers (if/else chains over a *cypher.Variable with counting and non-counting branches); 1 confirmed by reading: collectIDMembershipCollector.Enter", found)
+	r.Ob("C02-R3-classifiers-found", "optimize+translate", token.NoPos, found >= 1, "%d usage classifiers (if/else chains, or switches over the result of a classifying function, over a *cypher.Variable with counting and non-counting branches); 1 confirmed by reading: collectIDMembershipCollector.Enter", found)
 	r.Floor(rule, 1)
+}
+
+// rootIdentOfSelector: the identifier that names a constant, `C` or `pkg.C`.
+func rootIdentOfSelector(e ast.Expr) *ast.Ident {
+	switch x := ast.Unparen(e).(type) {
+	case *ast.Ident:
+		return x
+	case *ast.SelectorExpr:
+		return x.Sel
+	}
+	return nil
 }
